@@ -73,24 +73,13 @@ theorem meet_sound_partial {a b r : SmallRange} {n : Nat} (hv : sameVar a b = tr
     (try (split at hm)) <;> (try (simp at hm)) <;> (try subst hm) <;> simp [γ] at ha hb ⊢ <;>
     (first | omega | (rename_i h; exact absurd hv h) | (rename_i h; exact absurd hv.symm h))
 
-/-- `increment` for the counter reading, except on `1(v)` incremented with the same `v` -/
-theorem increment_sound_partial {a : SmallRange} {n v : Nat} (hne : a ≠ one v) (h : γ a n) :
-    γ (increment a v) (n + 1) := by
-  cases a with
-  | one w =>
-    by_cases hw : w = v
-    · subst hw; exact absurd rfl hne
-    · simp [increment, hw, γ]
-  | _ => simp [increment, γ] at h ⊢ <;> omega
+/-- `increment` counts one more object -/
+theorem increment_sound {a : SmallRange} {n v : Nat} (h : γ a n) : γ (increment a v) (n + 1) := by
+  cases a <;> simp [increment, γ] at h ⊢ <;> omega
 
 /-- an increment that does not add a new object (the counter is already at least one) -/
 theorem increment_same {a : SmallRange} {n v : Nat} (h : γ a n) (hn : 1 ≤ n) : γ (increment a v) n := by
-  cases a with
-  | one w =>
-    by_cases hw : w = v
-    · simp [increment, hw, γ] at h ⊢; exact h
-    · simp [increment, hw, γ] at h ⊢; omega
-  | _ => simp [increment, γ] at h ⊢ <;> omega
+  cases a <;> simp [increment, γ] at h ⊢ <;> omega
 
 /-- `increment` for the variable-set reading: `v` joins the set -/
 theorem incrementV_sound {a : SmallRange} {S : Nat → Prop} {v : Nat} (h : γV a S) :
@@ -104,23 +93,38 @@ theorem incrementV_sound {a : SmallRange} {S : Nat → Prop} {v : Nat} (h : γV 
       · exact absurd hx (h x)
       · exact hx
     · intro hx; exact Or.inr hx
-  | one w =>
-    by_cases hw : w = v
-    · subst hw
-      simp only [increment, if_true, γV] at h ⊢
-      intro x; constructor
-      · rintro (hx | hx)
-        · exact (h x).1 hx
-        · exact hx
-      · intro hx; exact Or.inr hx
-    · simp only [increment, hw, if_false, γV]; exact ⟨v, Or.inr rfl⟩
+  | one w => exact ⟨v, Or.inr rfl⟩
   | zeroOrOne w => exact ⟨v, Or.inr rfl⟩
   | zeroOrMore => exact ⟨v, Or.inr rfl⟩
   | oneOrMore => exact ⟨v, Or.inr rfl⟩
 
-/-- `operator<=` answers yes only for included values, except for the `0 <= bottom` quirk -/
-theorem leq_sound_partial {a b : SmallRange} {n : Nat} (hb : b ≠ bottom) (h : leq a b = some true) (ha : γ a n) : γ b n := by
-  cases a <;> cases b <;> simp [leq, isBottom, isTop] at h hb ⊢ <;> simp [γ] at ha ⊢ <;> omega
+/-- the old `increment` agrees with the fixed one except on `1(v)` incremented with `v` -/
+theorem incrementOld_eq {a : SmallRange} {v : Nat} (hne : a ≠ one v) : incrementOld a v = increment a v := by
+  cases a with
+  | one w =>
+    by_cases hw : w = v
+    · subst hw; exact absurd rfl hne
+    · simp [incrementOld, increment, hw]
+  | _ => rfl
+
+/-- `operator<=` never reaches CRAB_ERROR -/
+theorem leq_isSome (a b : SmallRange) : (leq a b).isSome = true := by
+  cases a <;> cases b <;> simp [leq, isBottom, isTop] <;> (try split) <;> rfl
+
+/-- `operator<=` answers yes only for included values -/
+theorem leq_sound {a b : SmallRange} {n : Nat} (h : leq a b = some true) (ha : γ a n) : γ b n := by
+  cases a <;> cases b <;> simp [leq, isBottom, isTop] at h ⊢ <;> simp [γ] at ha ⊢ <;> omega
+
+/-- the same for the set reading -/
+theorem leqV_sound {a b : SmallRange} {S : Nat → Prop} (h : leq a b = some true) (ha : γV a S) : γV b S := by
+  cases a <;> cases b <;> simp [leq, isBottom, isTop] at h ⊢ <;> simp [γV] at ha ⊢
+  all_goals first
+    | exact ha
+    | (subst h; exact ha)
+    | (subst h; intro x hx; exact (ha x).1 hx)
+    | (intro x hx; exact absurd hx (ha x))
+    | exact ⟨_, (ha _).2 rfl⟩
+    | grind
 
 end SmallRange
 end Crab
